@@ -63,7 +63,12 @@ def norm_eff(st):
         if e[0] == "opassign":
             out.append(("inc", e[2][1]) if (e[1] == "Add" and e[3] == lit_int(1) and e[2][0] == "place") else ("other", e))
         elif e[0] == "assign" and e[1][0] == "place":
-            out.append(("assign", e[1][1], e[2]))
+            import builders as B_
+            t = e[2]
+            if t[0] == "lin" and t[2] == 1 and len(t[1]) == 1 and t[1][0][1] == 1 and B_.is_old_value(t[1][0][0], e[1]):
+                out.append(("inc", e[1][1]))
+            else:
+                out.append(("assign", e[1][1], e[2]))
         else:
             out.append(("other", e))
     return tuple(out)
